@@ -107,6 +107,10 @@ def known_family(case, m, prop=None):
     that known_findings.json lists for that property count (a case may
     satisfy several predicates; the first one listed for `prop` is named)."""
     for fam in _families_of(case, m):
+        if fam.endswith("#not-jobtail"):
+            fam = fam.split("#")[0]
+            if prop == "C01":
+                continue
         if fam.endswith("#loop-clause"):
             # clause (b) of F-P only counts for the properties for which a
             # violating replay of that clause is listed
@@ -147,17 +151,22 @@ def _families_of(case, m):
     # names is acyclic and the loop code of the learner never runs
     if not any(len({t for t, _ in j}) < len(j) for j in m.jobs):
         f = tuple(x for x in f if x not in (
-            "break_multi_loop_last", "break_loop_tail_of_loop",
+            "break_multi_loop_last", "break_multi_jobtail",
+            "break_loop_tail_of_loop", "break_loop_tail_of_loop_jobtail",
             "break_loop_tail_of_fork_ending_loop",
             "empty_break_beside_break"))
-    if "break_multi_loop_last" in f:
+    if "break_multi_jobtail" in f:
         out.append("PV-F-B-trailing-loop-multi-event-break")
     if "empty_break_loop_last" in f:
         out.append("PV-F-B0-trailing-loop-empty-break")
     if "empty_break_beside_break" in f:
         out.append("PV-F-H-empty-break-beside-another-break")
     if "break_loop_tail_of_loop" in f:
-        out.append("PV-F-C-break-loop-at-tail-of-loop-body")
+        # C01 is only hit when nothing follows the enclosing loop either
+        # (measured: 49/49 there, 0/124 otherwise once F-B is set aside)
+        out.append("PV-F-C-break-loop-at-tail-of-loop-body"
+                   + ("" if "break_loop_tail_of_loop_jobtail" in f
+                      else "#not-jobtail"))
     if "break_loop_tail_of_fork_ending_loop" in f:
         out.append("PV-F-C2-break-loop-ends-fork-branch-ending-loop-body")
     if not m.complete and not m.too_large:
